@@ -15,6 +15,7 @@ func init() {
 		Stages: []Stage{
 			{Name: "minprefix", Dir: "cmd/application", Pkg: ".", Run: "^TestVerifC04MinPrefix$", Drivers: []string{"app"}, Exports: []string{"lib"}, Files: []string{"_c08_"}, HangIsViol: true, TimeoutQ: 15 * time.Minute, TimeoutT: 240 * time.Minute},
 			{Name: "obfs4", Dir: "cmd/application", Pkg: ".", Run: "^TestVerifC04Obfs4$", Drivers: []string{"app"}, Exports: []string{"lib"}, Files: []string{"_c08_"}, HangIsViol: true, TimeoutQ: 15 * time.Minute, TimeoutT: 90 * time.Minute},
+			{Name: "concurrent", Dir: "cmd/application", Pkg: ".", Run: "^TestVerifC04Concurrent$", Drivers: []string{"app"}, Exports: []string{"lib"}, Files: []string{"_c08_"}, HangIsViol: true, TimeoutQ: 15 * time.Minute, TimeoutT: 60 * time.Minute},
 			{Name: "obfs4lengths", Dir: "cmd/application", Pkg: ".", Run: "^TestVerifC04Obfs4Lengths$", Drivers: []string{"app"}, Exports: []string{"lib"}, Files: []string{"_c08_"}, HangIsViol: true, TimeoutQ: 15 * time.Minute, TimeoutT: 90 * time.Minute},
 		},
 	})
